@@ -380,7 +380,8 @@ let exec (op : string) : unit =
                   let vals = List.map (fun (_, v) -> int_of_z v) vs in
                   let best = if b.turn = White then List.fold_left max min_int vals else List.fold_left min max_int vals in
                   let att = List.filter (fun (_, v) -> int_of_z v = best) vs in
-                  Printf.sprintf "search Ok %d {%s}" best (String.concat " " (List.sort compare (List.map (fun (m, _) -> mv_text m) att)))
+                  Printf.sprintf "search Ok %d {%s} {%s}" best (String.concat " " (List.sort compare (List.map (fun (m, _) -> mv_text m) att)))
+                    (String.concat " " (List.sort compare (List.map (fun (m, _) -> mv_text m) vs)))
               | _ -> "PANIC")
     | "perft" :: d :: _ ->
         with_board (fun b ->
@@ -431,6 +432,12 @@ let exec (op : string) : unit =
          | Some g ->
              let legal = legal_moves (abstract g.gboard) in
              Printf.sprintf "gengine {%s}" (String.concat " " (sorted_moves legal)))
+    | [ "gselect" ] ->
+        (match !game with
+         | None -> "PANIC"
+         | Some g ->
+             let legal = legal_moves (abstract g.gboard) in
+             Printf.sprintf "gselect {%s}" (String.concat " " (sorted_moves legal)))
     | [ "gsync"; ms ] ->
         (* follow the move the implementation's engine chose *)
         (match !game with
@@ -440,6 +447,18 @@ let exec (op : string) : unit =
              (match apply_move tbl m g.gboard with
               | Ok b' -> game := Some { g with gboard = b'; ghist = g.ghist @ [ m ] }; hist := ms :: !hist; "ok"
               | _ -> "PANIC"))
+    | [ "gunplay" ] ->
+        (* take back the last move made through the game (C15 scaffolding) *)
+        (match !game with
+         | None -> "PANIC"
+         | Some g ->
+             (match List.rev g.ghist with
+              | [] -> "nothing"
+              | m :: rest ->
+                  (match undo_move tbl m g.gboard with
+                   | Ok b' -> game := Some { g with gboard = b'; ghist = List.rev rest };
+                       hist := (match !hist with _ :: t -> t | [] -> []); "ok"
+                   | _ -> "PANIC")))
     | [ "gtoggle" ] ->
         (match !game with Some g -> game := Some { g with gboard = toggle_turn g.gboard }; "ok" | None -> "PANIC")
     | [ "gsnap" ] ->
